@@ -16,6 +16,7 @@
    ebpf_user/maps.c implements it.  All integers are N with the C widths written out.
    Definitions only; proofs are in Proofs/EbpfProofs.v. *)
 From GPA Require Export Bytes Consts.
+From Coq Require Uint63.
 
 Definition words := list N.
 
@@ -475,3 +476,48 @@ Definition witness_run (sh : shifts) (t : task) : option audit_entry :=
   let '(s1, ctx', _) := connect4 sh s0 t (connect_ctx ip port IPPROTO_TCP) in
   let s3 := fst (kstep sh s1 (ETcpConnect t KERNEL_AF_INET 40000 (sa_ip ctx') (sa_port ctx'))) in
   lookup_audit s3 40000.
+
+(* ---------------------------------------------------------------------------------------- *)
+(* digests: the correspondence check compares, per script, a rolling digest that absorbs,     *)
+(* after EVERY line, the line's outputs and the dump of all four maps (the same function is   *)
+(* computed by tools/checks/c06.py over the C side's outputs and dumps).  On a mismatch the   *)
+(* per-line digests and then the full dumps are compared to name the first differing line.    *)
+(* 63-bit machine integers (Coq's primitive Uint63, evaluated natively by vm_compute): the    *)
+(* digest is only a transport encoding for the comparison, no theorem mentions it.            *)
+(* ---------------------------------------------------------------------------------------- *)
+Definition int_of_N (n : N) : Uint63.int :=
+  match n with N0 => Uint63.of_Z 0 | Npos p => Uint63.of_pos p end.
+Definition hmix (h x : Uint63.int) : Uint63.int :=
+  Uint63.add (Uint63.add (Uint63.mul h (Uint63.of_Z 1000003)) x) (Uint63.of_Z 1).
+Definition hword (h : Uint63.int) (w : N) : Uint63.int := hmix h (int_of_N w).
+Definition hwords (h : Uint63.int) (ws : words) : Uint63.int := fold_left hword ws h.
+Definition hentry (h : Uint63.int) (kv : words * words) : Uint63.int :=
+  hwords (hwords (hword h (N.of_nat (length (fst kv)))) (fst kv)) (snd kv).
+Definition hmap (m : wmap) : Uint63.int := fold_left hentry m (hword (Uint63.of_Z 7) (wlen m)).
+Definition hstate (h : Uint63.int) (s : kstate) : Uint63.int :=
+  fold_left (fun h m => hmix h (hmap m)) (dump s) h.
+Definition hline (h : Uint63.int) (o : list N) (s : kstate) : Uint63.int :=
+  hstate (hwords (hword h (N.of_nat (length o))) o) s.
+Definition N_of_int (h : Uint63.int) : N := Z.to_N (Uint63.to_Z h).
+
+(* digest after every line *)
+Fixpoint run_script_chain (sh : shifts) (w : kstate * inflight) (ls : list line) (h : Uint63.int) : list Uint63.int :=
+  match ls with
+  | [] => []
+  | l :: rest =>
+      let '(w', o) := lstep sh w l in
+      let h' := hline h o (fst w') in
+      h' :: run_script_chain sh w' rest h'
+  end.
+(* ... and only the last one *)
+Fixpoint run_script_last (sh : shifts) (w : kstate * inflight) (ls : list line) (h : Uint63.int) : Uint63.int :=
+  match ls with
+  | [] => h
+  | l :: rest =>
+      let '(w', o) := lstep sh w l in
+      run_script_last sh w' rest (hline h o (fst w'))
+  end.
+Definition run_script_d (ls : list line) : N := N_of_int (run_script_last cur_sh (kinit, []) ls (Uint63.of_Z 7)).
+(* per-line digests, 20 low bits each (cheap to print): used to locate the first differing line *)
+Definition run_script_t (ls : list line) : list N :=
+  map (fun h => N_of_int (Uint63.land h (Uint63.of_Z 1048575))) (run_script_chain cur_sh (kinit, []) ls (Uint63.of_Z 7)).
